@@ -15,6 +15,7 @@ from vlib.spec import S, Pos, build, preorder, spec_json, child_slots, deep_copy
 from vlib.universe import core_universe
 
 LEVEL = "exploration"
+TYPECHECK_OK = True  # every generated value conforms to its annotation: shards may run with RUNTIME_TYPE_CHECK on
 RULE = (
     "cases = (xpath AST rendered to text, tree); xpaths with 1-4 steps, every combination of anywhere/field/index/class "
     "per step, indices 0-14, '[]', relative and absolute spelling, '///'; 75% derived from a real position of the tree "
